@@ -387,6 +387,11 @@ class _AdbIOManagerAsync(object):
                         async with self._store_lock:
                             self._packet_store.clear(arg0, arg1)
 
+                    else:
+                        # This stream is open -> if another stream's reader gets its `CLSE` packet, it must not be dropped
+                        async with self._store_lock:
+                            self._packet_store.mark_live(arg0, arg1)
+
                     # If `cmd` is a match, then we are done
                     if cmd in expected_cmds:
                         return cmd, arg0, arg1, data
